@@ -64,14 +64,24 @@ Account(r) == /\ st' = r.st /\ data' = r.data
               /\ UNCHANGED <<prog, apps, ai, phase, log>>
 
 Running == phase = "run" /\ pc <= Len(prog)
+Unspecified == ~IsProbe(Cur) /\ (Cur.a = "drop" \/ (Cur.a = "swap" /\ ~SwapDefined(st)))
 
 StepProbe == /\ Running /\ IsProbe(Cur)
              /\ Account(Res(st, ProbeApply(Cur, Dir, data), Len(data), FALSE))
 
 StepStack(kind) ==
     /\ Running /\ ~IsProbe(Cur) /\ Cur.a = kind
-    /\ kind = "swap" => SwapDefined(st)       \* otherwise unspecified: behaviour abandoned
+    /\ ~Unspecified
     /\ Account(IF Dir = "F" THEN StackFwd(Cur, st, data) ELSE StackInv(Cur, st, data))
+
+\* An instruction whose behaviour the documentation leaves open: swap with fewer than two
+\* elements on the stack, and the undocumented `drop`.  The application is not predicted any
+\* further; what remains required of it is only what holds for EVERY application (C10): it
+\* reports no more successes than tuples, and every tuple it does not count carries NaN.
+StepUnspec == /\ Running /\ Unspecified
+              /\ log' = Append(log, [dir |-> Dir, cnt |-> -2, data |-> data, uf |-> TRUE, lu |-> FALSE, depth |-> Len(st), unspec |-> TRUE])
+              /\ phase' = "done"
+              /\ UNCHANGED <<prog, apps, ai, pc, st, data, cnt, uf, lu>>
 
 StepPush   == StepStack("push")
 StepPop    == StepStack("pop")
@@ -86,14 +96,14 @@ StepLPop   == StepStack("lpop")
 \* empty stack: nothing leaks from one application into the next) or stop.
 EndApply ==
     /\ phase = "run" /\ pc > Len(prog)
-    /\ log' = Append(log, [dir |-> Dir, cnt |-> cnt, data |-> data, uf |-> uf, lu |-> lu, depth |-> Len(st)])
+    /\ log' = Append(log, [dir |-> Dir, cnt |-> cnt, data |-> data, uf |-> uf, lu |-> lu, depth |-> Len(st), unspec |-> FALSE])
     /\ IF ai < Len(apps) /\ ~uf     \* after an underflow the operands are only known to carry NaN: stop
        THEN /\ ai' = ai + 1 /\ pc' = 1 /\ st' = <<>> /\ cnt' = -1
             /\ UNCHANGED <<prog, apps, data, phase, uf, lu>>
        ELSE /\ phase' = "done"
             /\ UNCHANGED <<prog, apps, ai, pc, st, data, cnt, uf, lu>>
 
-Next == Extend \/ Start \/ StepProbe \/ StepPush \/ StepPop \/ StepFlip \/ StepRoll
+Next == Extend \/ Start \/ StepUnspec \/ StepProbe \/ StepPush \/ StepPop \/ StepFlip \/ StepRoll
         \/ StepUnroll \/ StepSwap \/ StepLPush \/ StepLPop \/ EndApply
 
 Spec == Init /\ [][Next]_vars
@@ -117,7 +127,7 @@ CountInv == (phase = "run" /\ cnt # -1) => /\ cnt \in {0, Len(Data0)}
 
 \* An underflow stomps: right after it, every tuple is NaN throughout
 \* (checked on the log: an application that underflowed reports 0)
-UnderflowInv == \A i \in 1..Len(log) : log[i].uf => log[i].cnt = 0
+UnderflowInv == \A i \in 1..Len(log) : (log[i].uf /\ ~log[i].unspec) => log[i].cnt = 0
 
 \* Big-step reference: the inverse of a program is the reversed program with
 \* every instruction replaced by its inverse instruction (push <-> pop with
@@ -139,7 +149,7 @@ Reference(p, dir, d) == IF dir = "F" THEN BigRun(p, "F", 1, <<>>, d, -1)
 
 \* The step machine agrees with the big-step reference after every application
 InputOf(i) == IF i = 1 THEN Data0 ELSE log[i - 1].data
-RefInv == \A i \in 1..Len(log) :
+RefInv == \A i \in 1..Len(log) : ~log[i].unspec =>
              LET r == Reference(prog, log[i].dir, InputOf(i))
              IN r.data = log[i].data /\ r.cnt = log[i].cnt /\ r.depth = log[i].depth
 
@@ -155,7 +165,7 @@ Emit == phase = "done" =>
         apps  |-> [i \in 1..Len(log) |->
                      [dir |-> log[i].dir, count |-> log[i].cnt,
                       \* after an underflow only "every tuple carries NaN" is specified
-                      exact |-> ~log[i].uf, legacy_underflow |-> log[i].lu,
+                      exact |-> ~log[i].uf, legacy_underflow |-> log[i].lu, unspecified |-> log[i].unspec,
                       data |-> log[i].data]]
     ])>>)
 =============================================================================
